@@ -115,7 +115,11 @@ struct ParameterTraits<cntgs::AlignAs<T, Alignment>>
             new_offset = offset + size;
         }
         const auto padding_offset = detail::align_if<(TRAILING_ALIGNMENT < NextAlignment), NextAlignment>(new_offset);
-        return {new_offset, size, padding_offset - new_offset, (std::max)(alignment, ALIGNMENT)};
+        const auto known_alignment = (std::max)(alignment, ALIGNMENT);
+        return {new_offset, size,
+                detail::worst_case_padding<(TRAILING_ALIGNMENT < NextAlignment), NextAlignment>(
+                    new_offset, padding_offset - new_offset, known_alignment),
+                known_alignment};
     }
 
     static auto data_begin(ConstReferenceType reference) noexcept
@@ -412,7 +416,11 @@ struct ParameterTraits<cntgs::FixedSize<cntgs::AlignAs<T, Alignment>>> : BaseCon
             new_offset = offset + size;
         }
         const auto padding_offset = detail::align_if<(TRAILING_ALIGNMENT < NextAlignment), NextAlignment>(new_offset);
-        return {new_offset, size, padding_offset - new_offset, (std::max)(alignment, ALIGNMENT)};
+        const auto known_alignment = (std::max)(alignment, ALIGNMENT);
+        return {new_offset, size,
+                detail::worst_case_padding<(TRAILING_ALIGNMENT < NextAlignment), NextAlignment>(
+                    new_offset, padding_offset - new_offset, known_alignment),
+                known_alignment};
     }
 
     static void copy(const cntgs::Span<std::add_const_t<T>>& source,
